@@ -532,6 +532,10 @@ def itermergesort(sources, key, header, missing, reverse):
     if key is not None:
         # convert field selection into field indices
         indices = asindices(outhdr, key)
+    else:
+        # lexical sort on all fields, as sort() does
+        indices = range(len(outhdr))
+    if len(indices) > 0:
         # now use field indices to construct a _getkey function
         # N.B., this will probably raise an exception on short rows
         getkey = comparable_itemgetter(*indices)
